@@ -3,6 +3,7 @@ package clientsim
 import (
 	"errors"
 	"fmt"
+	"net/http"
 	"strings"
 	"testing"
 
@@ -13,7 +14,7 @@ import (
 	"verif/harness/stats"
 )
 
-const ruleC10 = "rapid-generated histories of 1..8 attempts (transport failure | response rejected by the validator | stream of id/data/event/comment lines with IDs normal, empty, containing NUL, repeated; ended cleanly, by a read error, or in mid-event) with unlimited retries and a request body of every kind (none, NoBody, with GetBody, without GetBody, GetBody failing at its j-th call); the scripted transport records the Last-Event-ID header, reads the request body of every attempt (or, for half of the transport failures, fails before reading it) and closes it; a closed body cannot be read again. Oracle: the header of attempt k+1 equals the LastEventID of the last event the reference interpreter DISPATCHES over attempts 1..k (threading the ID through; absent iff empty); every retry reads the full original body from a reader obtained by a fresh GetBody call (calls == attempts-1); a body that cannot be re-obtained ends Connect with ErrNoGetBody / GetBody's error after exactly the attempts made so far. Non-trivial: >= 3 attempts, a non-empty ID was dispatched, and a later attempt failed or was cut in mid-event. Distinct: FNV-64 of the JSON of the case."
+const ruleC10 = "rapid-generated histories of 1..8 attempts (transport failure | response rejected by the validator | stream of id/data/event/comment lines with IDs normal, empty, containing NUL, repeated; ended cleanly, by a read error, or in mid-event) with unlimited retries and a request body of every kind (none, NoBody, with GetBody, without GetBody, GetBody failing at its j-th call); 10% of the attempts of replayable requests are first answered with a 301/302/303/307/308 redirect, which the real http.Client follows (every later reconnection must again be the original request); the scripted transport records the Last-Event-ID header, reads the request body of every attempt (or, for half of the transport failures, fails before reading it) and closes it; a closed body cannot be read again. Oracle: the header of attempt k+1 equals the LastEventID of the last event the reference interpreter DISPATCHES over attempts 1..k (threading the ID through; absent iff empty); every retry reads the full original body from a reader obtained by a fresh GetBody call (calls == attempts-1); a body that cannot be re-obtained ends Connect with ErrNoGetBody / GetBody's error after exactly the attempts made so far. Non-trivial: >= 3 attempts, a non-empty ID was dispatched, and a later attempt failed or was cut in mid-event. Distinct: FNV-64 of the JSON of the case."
 
 var c10IDs = []string{"1", "2", "42", "abc", "", "", "a\x00b", "\x00", "x y", "é", "1"}
 
@@ -88,6 +89,15 @@ func genC10(t *rapid.T) Script {
 	sc.Body = stats.From(t, []string{"none", "nobody", "getbody", "getbody", "getbody", "nogetbody", "getbodyfail"}, "body")
 	if sc.Body == "getbodyfail" {
 		sc.GetBodyFail = stats.Pick(t, 4, "getbodyfail")
+	}
+	if sc.Body == "none" || sc.Body == "nobody" || sc.Body == "getbody" {
+		// redirects, followed by the real http.Client (bodies that cannot be replayed are left out:
+		// net/http then hands the 307/308 itself to the caller)
+		for i := range sc.Attempts {
+			if stats.Pct(t, "redirect") < 10 {
+				sc.Attempts[i].Redirect = stats.From(t, []int{301, 302, 303, 307, 308}, "redirectstatus")
+			}
+		}
 	}
 	return sc
 }
@@ -171,9 +181,51 @@ walk:
 		case lastID != "" && (len(obs.hdr) != 1 || obs.hdr[0] != lastID):
 			return v.Failf("", "attempt %d carries Last-Event-ID %q, want %q (ID of the last dispatched event)\n%s", k, obs.hdr, lastID, desc())
 		}
+		// -- a redirected attempt: the first request is the original one, the attempt proper is what
+		// net/http makes of it
+		redirected, bodyDropped := false, false
+		if k < len(sc.Attempts) && sc.Attempts[k].Redirect != 0 {
+			st := sc.Attempts[k].Redirect
+			var hop *hopObs
+			for i := range tr.hops {
+				if tr.hops[i].attempt == k {
+					hop = &tr.hops[i]
+				}
+			}
+			if hop == nil {
+				return v.Failf("", "attempt %d was sent straight to %q (method %s): a reconnection must send the original request again, not the one a redirect led to\n%s", k, obs.path, obs.method, desc())
+			}
+			redirected = true
+			v.Class(fmt.Sprintf("redirect:%d", st))
+			if hop.method != http.MethodPost || (sc.Body == "getbody" && (!hop.hasBody || hop.body != requestBody)) {
+				return v.Failf("", "attempt %d (before its %d redirect) was %s with body %q, want the original POST with body %q\n%s", k, st, hop.method, hop.body, requestBody, desc())
+			}
+			if (lastID == "") != (hop.hdr == nil) || (lastID != "" && (len(hop.hdr) != 1 || hop.hdr[0] != lastID)) {
+				return v.Failf("", "attempt %d (before its %d redirect) carries Last-Event-ID %q, want %q\n%s", k, st, hop.hdr, lastID, desc())
+			}
+			if st == 307 || st == 308 {
+				if sc.Body == "getbody" {
+					getBody++ // net/http obtains the body for the redirected request through GetBody
+				}
+			} else {
+				bodyDropped = true // 301-303 turn the POST into a body-less GET
+			}
+		} else if obs.path == redirectedPath {
+			return v.Failf("", "attempt %d was sent to %q although nothing redirected it: a reconnection must send the original request\n%s", k, obs.path, desc())
+		}
+		_ = redirected
 		// -- the body
+		switch {
+		case bodyDropped:
+			if obs.hasBody && obs.body != "" {
+				return v.Failf("", "attempt %d: a %d redirect must have dropped the body, the transport read %q\n%s", k, sc.Attempts[k].Redirect, obs.body, desc())
+			}
+		}
 		switch sc.Body {
 		case "getbody", "getbodyfail", "nogetbody":
+			if bodyDropped {
+				break
+			}
 			if obs.unread {
 				v.Class("attempt-failed-before-reading-the-body")
 				break
